@@ -542,6 +542,12 @@ def const_eval(facts, e, depth=0):
             var = e.get('ctor_of')
             return enum_discr(facts, var)
         return None
+    if k == 'Call' and not e.get('args') and callee_of(e) == 'core::mem::size_of':
+        # size_of::<uN / iN>() is N / 8 by the language definition of the primitive integer types (usize / isize: the 64-bit
+        # targets the checks are built for, as INT_RANGE assumes everywhere); any other type argument is not evaluated
+        import re as _re
+        m = _re.fullmatch(r'\[([iu])(8|16|32|64|128|size)\]', e.get('targs') or '')
+        return {'8': 1, '16': 2, '32': 4, '64': 8, '128': 16, 'size': 8}[m.group(2)] if m else None
     if k == 'Cast':
         return const_eval(facts, e['e'], depth + 1)
     if k == 'Unary' and e.get('op') == 'Neg':
